@@ -1,0 +1,65 @@
+//go:build verif
+
+// Contracts for the deductive verifier under /verif (comment-only file).
+package encoder
+
+// ---- option constants: every public option is exactly its bit of alg.Bit* (C18)
+//@ datainv opt_SortMapKeys props C18: SortMapKeys == 1 << alg.BitSortMapKeys
+//@ datainv opt_EscapeHTML props C18: EscapeHTML == 1 << alg.BitEscapeHTML
+//@ datainv opt_CompactMarshaler props C18: CompactMarshaler == 1 << alg.BitCompactMarshaler
+//@ datainv opt_NoQuoteTextMarshaler props C18: NoQuoteTextMarshaler == 1 << alg.BitNoQuoteTextMarshaler
+//@ datainv opt_NoNullSliceOrMap props C18: NoNullSliceOrMap == 1 << alg.BitNoNullSliceOrMap
+//@ datainv opt_ValidateString props C18: ValidateString == 1 << alg.BitValidateString
+//@ datainv opt_NoValidateJSONMarshaler props C18: NoValidateJSONMarshaler == 1 << alg.BitNoValidateJSONMarshaler
+//@ datainv opt_NoEncoderNewline props C18: NoEncoderNewline == 1 << alg.BitNoEncoderNewline
+//@ datainv opt_EncodeNullForInfOrNan props C18: EncodeNullForInfOrNan == 1 << alg.BitEncodeNullForInfOrNan
+//@ datainv opt_CompatibleWithStd props C18: CompatibleWithStd == SortMapKeys | EscapeHTML | CompactMarshaler
+//@ datainv opt_bits_distinct props C18: alg.BitSortMapKeys == 0 && alg.BitEscapeHTML == 1 && alg.BitCompactMarshaler == 2 && alg.BitNoQuoteTextMarshaler == 3 && alg.BitNoNullSliceOrMap == 4 && alg.BitValidateString == 5 && alg.BitNoValidateJSONMarshaler == 6 && alg.BitNoEncoderNewline == 7 && alg.BitEncodeNullForInfOrNan == 8 && alg.BitPointerValue == 63
+
+// ---- setters change exactly their bit (C18)
+//@ func (*Encoder).SortKeys props C18 mode bv
+//@   requires self != nil
+//@   modifies self.Opts
+//@   ensures self.Opts == old(self.Opts) | SortMapKeys
+//@   ensures result == self
+
+//@ func (*Encoder).SetEscapeHTML props C18 mode bv
+//@   requires self != nil
+//@   modifies self.Opts
+//@   ensures f ==> self.Opts == old(self.Opts) | EscapeHTML
+//@   ensures !f ==> self.Opts == old(self.Opts) &^ EscapeHTML
+
+//@ func (*Encoder).SetValidateString props C18 mode bv
+//@   requires self != nil
+//@   modifies self.Opts
+//@   ensures f ==> self.Opts == old(self.Opts) | ValidateString
+//@   ensures !f ==> self.Opts == old(self.Opts) &^ ValidateString
+
+//@ func (*Encoder).SetNoValidateJSONMarshaler props C18 mode bv
+//@   requires self != nil
+//@   modifies self.Opts
+//@   ensures f ==> self.Opts == old(self.Opts) | NoValidateJSONMarshaler
+//@   ensures !f ==> self.Opts == old(self.Opts) &^ NoValidateJSONMarshaler
+
+//@ func (*Encoder).SetNoEncoderNewline props C18 mode bv
+//@   requires self != nil
+//@   modifies self.Opts
+//@   ensures f ==> self.Opts == old(self.Opts) | NoEncoderNewline
+//@   ensures !f ==> self.Opts == old(self.Opts) &^ NoEncoderNewline
+
+//@ func (*Encoder).SetCompactMarshaler props C18 mode bv
+//@   requires self != nil
+//@   modifies self.Opts
+//@   ensures f ==> self.Opts == old(self.Opts) | CompactMarshaler
+//@   ensures !f ==> self.Opts == old(self.Opts) &^ CompactMarshaler
+
+//@ func (*Encoder).SetNoQuoteTextMarshaler props C18 mode bv
+//@   requires self != nil
+//@   modifies self.Opts
+//@   ensures f ==> self.Opts == old(self.Opts) | NoQuoteTextMarshaler
+//@   ensures !f ==> self.Opts == old(self.Opts) &^ NoQuoteTextMarshaler
+
+//@ func (*Encoder).SetIndent props C18
+//@   requires enc != nil
+//@   modifies enc.prefix, enc.indent
+//@   ensures same(enc.prefix, prefix) && same(enc.indent, indent)
